@@ -1,3 +1,43 @@
-From YV Require Import PyBase Token.
-Example c11_smoke : skip_space [] = [].
-Proof. reflexivity. Qed.
+(* C11 -- displayed equations follow the documented scheme and keep their
+   punctuation.  Only statements here, closed by `exact`.  Model:
+   coq/model/Math.v (expand_display_math, replace_section).
+
+   Proved for every equation: with the simple-equations option the result
+   is one placeholder of the display collection plus the final punctuation
+   mark, pinned at the start of the equation; an equation environment
+   declared as removed leaves at most its final punctuation mark; the
+   rotation of the display collection is cyclic and neighbours differ
+   (C10).  Not proved: the row/section scheme of the full mode (which
+   parts advance the placeholder, operator words); decided on the C11
+   stream by the structural oracle of harness/props/c11.py and by the
+   correspondence run, which compares the exact placeholder sequence. *)
+From YV Require Import PyBase Token PState Parser Expand Math ExpandSites Catalogue.
+Open Scope Z_scope.
+
+Theorem C11_simple_mode : forall T rec fuel st buf t ename st' o rest,
+  expand_display_math T rec fuel st buf t ename false = Ok (st', (o, rest)) ->
+  displayed_simple st' = true ->
+  exists ph pc,
+    hd_error (get_repls st' true) = Some ph /\
+    o = [ActionT (pos t); SpaceF (pos t) [c_space; c_space]; TextF (pos t) ph]
+        ++ pc ++ [ActionT (pos t)] /\
+    (pc = [] \/ exists c, pc = [TextF (pos t) [c]]
+                          /\ mem_str [c] (t_math_punctuation T) = true).
+Proof. exact display_simple. Qed.
+Print Assumptions C11_simple_mode.
+
+Theorem C11_removed_environment : forall T rec fuel st buf t ename st' o rest,
+  expand_display_math T rec fuel st buf t ename true = Ok (st', (o, rest)) ->
+  exists lp, o = [ActionT lp] \/
+             exists c, o = [TextF lp [c]] /\ mem_str [c] (t_math_punctuation T) = true.
+Proof. exact display_removed. Qed.
+Print Assumptions C11_removed_environment.
+
+Theorem C11_rotation_cycle : forall l, Nat.iter (length l) rotate l = l.
+Proof. exact rotate_cycle. Qed.
+Theorem C11_collections_of_repo : forall k s,
+  In (k, s) (t_langs py_tables) ->
+  forall l, In l [ls_inline s; ls_display s; ls_change s] ->
+  NoDup l /\ (2 <= length l)%nat.
+Proof. exact (collections_ok_spec py_tables (eq_refl true)). Qed.
+Print Assumptions C11_collections_of_repo.
